@@ -219,6 +219,28 @@ def model_stage(prop, name, module, base_cfg, overrides, timeout=1500, heap="12g
             "temporal_properties_checked": "Terminates, Progress" if "Micro" in module else ""}
 
 
+def apalache_stage(prop, name, module):
+    """unbounded model-level obligation: IndInv of `module` is inductive (Init => IndInv; IndInv /\\ Next => IndInv')"""
+    t0 = time.time()
+    odir = os.path.join(OUT, prop, name); shutil.rmtree(odir, ignore_errors=True); os.makedirs(odir)
+    shutil.copy(os.path.join(SPEC, module + ".tla"), odir)
+    done = 0; logs = []
+    for init, length in (("Init", 0), ("IndInit", 1)):
+        r = subprocess.run("cd %s && timeout 900 apalache-mc check --init=%s --cinit=CInit --inv=IndInv --length=%d --out-dir=%s/_ap %s.tla"
+                           % (odir, init, length, odir, module), shell=True, capture_output=True, text=True)
+        logs.append(r.stdout[-3000:])
+        if "The outcome is: NoError" in r.stdout: done += 1
+        elif "The outcome is: Error" in r.stdout:
+            open(os.path.join(odir, "apalache.log"), "w").write("\n".join(logs))
+            raise Infra("MODEL-LEVEL VIOLATION: the inductive invariant of %s fails (obligation %s): see %s/apalache.log" % (module, init, odir))
+        else:
+            open(os.path.join(odir, "apalache.log"), "w").write("\n".join(logs))
+            raise Infra("Apalache did not complete on %s: %s" % (module, r.stdout[-400:]))
+    shutil.rmtree(os.path.join(odir, "_ap"), ignore_errors=True)
+    return {"stage": name, "kind": "inductive invariant over unbounded lengths and capacities (Apalache, model level)", "module": module + ".tla",
+            "obligations": 2, "discharged": done, "states": 0, "transitions": 0, "violations": 0, "samples": [], "wall_s": round(time.time() - t0, 1)}
+
+
 ASSUME_COMMON = [
     "Layer I (spec/ParserImpl.tla etc.) is a faithful transcription of the C control flow; bound to the code by replaying every generated transition and comparing buffer_used (drift is reported, not hidden)",
     "ASan/UBSan (gcc 12) observe memory errors on the executions performed; exact-size heap blocks for document, parser struct and state array",
@@ -300,6 +322,8 @@ def check_nav(prop, tier, replay):
     t0 = time.time()
     stages = [product_stage(prop, name, "MC_Nav.tla", "MC_Nav.cfg", consts) for name, consts in NAV_STAGES[prop][tier]]
     stages.append(parser_trace_stage(prop, tier))
+    if prop in ("C03", "C10"):
+        stages.append(corpus_stage(prop, tier, "valid_objects"))      # the 220 valid documents shipped with the repository
     return finish(prop, tier, stages, t0, ASSUME_COMMON)
 
 
@@ -438,6 +462,8 @@ def check_writer(prop, tier, replay):
     stages = [product_stage(prop, name, "MC_Writer.tla", "MC_Writer.cfg", c, replayer="replay_writer") for name, c in WRITER_STAGES[prop][tier]]
     stages.append(trace_stage(prop, "recorded-long-payloads", "record_writer", "--runs %d" % (400 if tier == "quick" else 6000),
                               "TraceWriter.tla", "TraceWriter.cfg", memprop="C04"))
+    if prop == "C04":
+        stages.append(apalache_stage(prop, "unbounded-lengths", "ApWriterCore"))
     return finish(prop, tier, stages, t0, ASSUME_WRITER)
 
 
@@ -486,6 +512,8 @@ def check_tostring(prop, tier, replay):
     stages = [product_stage(prop, name, "MC_ToString.tla", "MC_ToString.cfg", c, replayer="replay_tostring") for name, c in TOSTRING_STAGES[prop][tier]]
     stages.append(trace_stage(prop, "recorded-large-documents", "record_tostring", "--big --docs %d" % (150 if tier == "quick" else 3000),
                               "TraceToString.tla", "TraceToString.cfg", memprop="C13"))
+    if prop == "C13":
+        stages.append(apalache_stage(prop, "unbounded-token-lengths", "ApToStringCore"))
     return finish(prop, tier, stages, t0, ASSUME_TS)
 
 
